@@ -13,9 +13,10 @@ Property theorems only.
   `Hls.Race.phaseMap` (trusted, `Hls/Race/PhaseMap.lean`): `c08_rows_ok` is the table obligation
   (`decide`), `c08_table_disciplined` the pairwise statement, `c08_race_free` the instance of the generic
   theorem `Hls.Race.lockset_sound` in the abstract interleaving machine of `Hls/Race/Lockset.lean`.
-  They are stated for the table MINUS the named rows `Hls.Race.knownRaces` — the data races of the
-  unchanged tree (F5, F14a, F14b; each demonstrated by the race detector, notes/race.md). Any NEW
-  undisciplined access breaks the `decide`.
+  They are stated for the FULL regenerated table: `Hls.Race.knownRaces` is empty since the data races the
+  machinery found (F5, F14a, F14b; each demonstrated by the race detector, notes/race.md) are repaired.
+  Any undisciplined access — new, or a repair reverted — breaks the `decide`
+  (`c08_legacy_rows_rejected`: the pre-repair rows are rejected by the same check).
 * Snapshot atomicity and per-requester monotonicity are proved in the machine of
   `Hls/Race/Snapshot.lean` over the FROZEN sequential model `Hls.Muxer`; the atomicity of a handler's
   step is justified by `c08_handlers_locked`, a fact of the same table.
@@ -33,33 +34,33 @@ open Hls.Race Hls.Gen Hls.Muxer
 /-! ## (2) Race freedom -/
 
 set_option maxRecDepth 200000 in
-/-- **Table obligation.** Every row of the regenerated access table (minus the known races) follows the
+/-- **Table obligation.** Every row of the regenerated access table follows the
     discipline the phase map claims for its field: writes only where the policy allows a write
     (role, function, lock held exclusively), handler reads under the lock the policy names, no handler
     ever writes. -/
-theorem c08_rows_ok : checkedAccesses.all (rowOK phaseMap) = true := by decide
+theorem c08_rows_ok : accesses.all (rowOK phaseMap) = true := by decide
 
 /-- Every conflicting pair of accesses (same field, different threads possible, at least one a write)
     shares a lock in conflicting modes or is separated by a publication phase. -/
-theorem c08_table_disciplined : disciplined phaseMap checkedAccesses = true :=
-  rowsOK_disciplined phaseMap checkedAccesses c08_rows_ok
+theorem c08_table_disciplined : disciplined phaseMap accesses = true :=
+  rowsOK_disciplined phaseMap accesses c08_rows_ok
 
 /-- **No data race** (modulo the trusted base): in no reachable synchronisation state of the abstract
     machine (one producer thread `0` = the `Write*`/`Close` goroutine, any number of handler threads,
     locks M/S/F with mutex / RW-lock semantics, objects published once) do two different threads have
     conflicting accesses of the table to the same field of the same object enabled at the same time. -/
 theorem c08_race_free {σ : St} (hr : Reachable σ) {t₁ t₂ : Tid} {a b : Access AccFn AccField} {o : Obj}
-    (h₁ : canDo phaseMap checkedAccesses σ t₁ a o) (h₂ : canDo phaseMap checkedAccesses σ t₂ b o)
+    (h₁ : canDo phaseMap accesses σ t₁ a o) (h₂ : canDo phaseMap accesses σ t₂ b o)
     (hne : t₁ ≠ t₂) (hf : a.field = b.field)
     (hw : isWrite phaseMap a = true ∨ isWrite phaseMap b = true) : False :=
-  lockset_sound phaseMap checkedAccesses c08_table_disciplined hr h₁ h₂ hne hf hw
+  lockset_sound phaseMap accesses c08_table_disciplined hr h₁ h₂ hne hf hw
 
 /-- non-vacuity: a state in which a handler thread (holding M) and the writer (holding nothing) both have
     an access enabled exists — the theorem says such pairs never conflict -/
 example : ∃ σ, Reachable σ ∧
-    canDo phaseMap checkedAccesses σ 1
+    canDo phaseMap accesses σ 1
       ⟨.muxerStream_hasContent, .muxerStream_segments, .r, [(.M, .excl)], .handler⟩ 0 ∧
-    canDo phaseMap checkedAccesses σ 0
+    canDo phaseMap accesses σ 0
       ⟨.muxerPart_writeSample, .muxerPart_isIndependent, .w, [], .writer⟩ 0 := by
   refine ⟨{ held := [(1, .M, .excl)], pub := fun _ => false }, ?_, ?_, ?_⟩
   · exact Reachable.step Reachable.init (Step.lock St.init 1 .M (by intro e he; cases he))
@@ -71,14 +72,19 @@ example : ∃ σ, Reachable σ ∧
   · refine ⟨by decide, by decide, Or.inr ⟨Or.inl rfl, rfl⟩, ?_, by decide, fun _ => rfl⟩
     intro p hp; cases hp
 
-/-- Nothing but the named exceptions is left out: every row of the FULL regenerated table that is not
-    one of `knownRaces` follows the discipline. (A row of `knownRaces` that a repair has made disciplined —
-    fix-F14a / fix-F14b — simply stops being needed; `Hls.Race.undisciplinedRows accesses` lists what is
-    still undisciplined on the tree under test.) -/
-theorem c08_only_known_rows_excepted :
-    ∀ a ∈ accesses, isKnownRace a = false → rowOK phaseMap a = true := by
-  intro a ha hk
-  exact List.all_eq_true.mp c08_rows_ok a (List.mem_filter.mpr ⟨ha, by simp [hk]⟩)
+/-- No exception list is in force: the table the theorems above are about is the full regenerated table. -/
+theorem c08_no_exceptions : Hls.Race.checkedAccesses = accesses :=
+  List.filter_eq_self.mpr (fun _ _ => rfl)
+
+/-- **The discipline rejects the code as it was before the repairs.** The 15 undisciplined rows of the access
+    table extracted from the pre-repair tree (F5: `muxerStream.close` storing `closed` without M; F14a: `write*`
+    storing codec parameters without M; F14b: `fileDisk.Finalize` / `NewPart` / `partDisk.Reader` on a part's
+    buffer and size without a common lock) all fail `rowOK` under today's phase map, and they are exactly the rows
+    named by `legacyKnownRaces`. Reverting a repair therefore breaks `c08_rows_ok`. -/
+theorem c08_legacy_rows_rejected :
+    legacyRows.all (fun a => !rowOK phaseMap a && isLegacyKnownRace a) = true ∧
+    legacyKnownRaces.all (fun k => legacyRows.any (fun a => a.fn == k.fn && a.field == k.field)) = true := by
+  decide
 
 /-- Publication happens inside the writer's critical section: every call of
     `muxerServer.registerPath` / `unregisterPath` made on behalf of `Write*` holds the muxer mutex M. -/
@@ -88,7 +94,7 @@ theorem c08_publication_under_M :
 /-- What makes a handler's evaluation atomic with respect to the writer's rotations: every handler
     access to a field that the writer mutates under a lock holds that lock (M for the stream state,
     S for the path table, F for disk part buffers). -/
-theorem c08_handlers_locked : Snapshot.HandlersLocked checkedAccesses := by
+theorem c08_handlers_locked : Snapshot.HandlersLocked accesses := by
   intro a ha hr hh l hp
   exact handler_holds_of_rowOK (List.all_eq_true.mp c08_rows_ok a ha) hr hh hp
 
@@ -109,7 +115,7 @@ open Snapshot in
     `run st0 (ops.take n)` — so every single-playlist invariant proved for the sequential model
     (C03–C05) holds of every concurrent response verbatim. -/
 theorem c08_response_is_snapshot {st0 : State} {ops : List WriteOp} {c : Conf}
-    (h : Reach checkedAccesses st0 ops c) :
+    (h : Reach accesses st0 ops c) :
     ∀ e ∈ c.log, e.at_ ≤ ops.length ∧ e.resp = answer (run st0 (ops.take e.at_)) e.req := by
   intro e he
   obtain ⟨_, _, h3, h4, _⟩ := reach_inv h
@@ -120,7 +126,7 @@ open Snapshot in
     along the sequential run — the later one is reached from the earlier one by running further writes —
     so the history relation of C04 applies to what any one client sees. -/
 theorem c08_monotone_per_requester {st0 : State} {ops : List WriteOp} {c : Conf}
-    (h : Reach checkedAccesses st0 ops c) (r : Nat) :
+    (h : Reach accesses st0 ops c) (r : Nat) :
     (c.log.filter (fun e => e.requester == r)).Pairwise (fun e₁ e₂ =>
       e₁.at_ ≤ e₂.at_ ∧ ∃ more, run st0 (ops.take e₂.at_) = run (run st0 (ops.take e₁.at_)) more) := by
   obtain ⟨_, _, _, _, h5⟩ := reach_inv h
@@ -135,7 +141,7 @@ theorem c08_monotone_per_requester {st0 : State} {ops : List WriteOp} {c : Conf}
 
 open Snapshot in
 /-- non-vacuity of the three theorems above: a run with a writer step between two requests of requester 7 -/
-example (st0 : State) (op : WriteOp) : ∃ c, Reach checkedAccesses st0 [op] c ∧ c.log.length = 2 ∧ c.done = 1 := by
+example (st0 : State) (op : WriteOp) : ∃ c, Reach accesses st0 [op] c ∧ c.log.length = 2 ∧ c.done = 1 := by
   refine ⟨_, Reach.step (Reach.step (Reach.step Reach.init
     (Step.handler _ 7 (.media 0 false) c08_handlers_locked))
     (Step.writer _ op [] rfl))
